@@ -40,7 +40,7 @@ Holds(c, r) ==
     [] c = "TripsByThreshold" -> (EnableBreaker /\ ConsecNext(r) >= Threshold) => r.post.circuit # "closed"
     [] c = "Isolation" -> (IsReq(r) /\ EnableBreaker /\ circuit = "open" /\ ~Timed) =>
                               r.obs.action = "CIRCUIT_OPEN" /\ r.obs.blocked /\ r.obs.dinv = 0 /\ r.obs.dspent = 0
-    [] c = "ProbeAdmitted" -> (IsReq(r) /\ EnableBreaker /\ circuit = "open" /\ Timed /\ ~r.obs.cached) => r.obs.dinv > 0
+    [] c = "ProbeAdmitted" -> (IsReq(r) /\ EnableBreaker /\ Probe /\ ~r.obs.cached) => r.obs.dinv > 0
     [] c = "ProbeSuccessCloses" -> (IsReq(r) /\ EnableBreaker /\ Probe /\ Fresh(r) /\ ~r.obs.blocked) =>
                               r.post.circuit = "closed" /\ r.post.failures = 0
     [] c = "ProbeFailureReopens" -> (IsReq(r) /\ EnableBreaker /\ Probe /\ Fresh(r) /\ G!DefiniteFailure(r.act.z, r.act.y)) =>
